@@ -86,6 +86,16 @@ def readChromP (onlySnvs : Bool) :
       let (st2, pl3, rows) ← readChromP onlySnvs st1 pl2 (some r.pos) rs
       pure (st2, pl3, ⟨r.pos, r.ref, r.alts.headD "", (r.calls.map (fun nc => gcode nc.2.gt)).zip ps⟩ :: rows)
 
+/-- the records of a chromosome that the reader turns into rows (skipping: no / several ALT alleles, non-SNVs under
+    `--only-snvs`, every further record of a position that already has a row); unsorted input is not judged here -/
+def accepted (onlySnvs : Bool) : Option Nat → List Record → List Record
+  | _, [] => []
+  | prev, r :: rs =>
+    if r.alts.isEmpty || decide (r.alts.length > 1) then accepted onlySnvs prev rs
+    else if onlySnvs && !(r.ref.length == 1 && r.alts.all (·.length == 1)) then accepted onlySnvs prev rs
+    else if prev == some r.pos then accepted onlySnvs prev rs
+    else r :: accepted onlySnvs (some r.pos) rs
+
 /-- `VcfReader.__iter__`: one table per run of records with the same chromosome (`itertools.groupby`);
     `phase_detected` starts at `None` for every table, `self.ploidy` is carried -/
 def readFile (onlySnvs : Bool) : Option Nat → List (String × List Record) →
